@@ -301,6 +301,10 @@ fn find_subslice_from(haystack: &[String], needle: &[String], start: usize) -> O
         .find(|&idx| &haystack[idx..idx + needle.len()] == needle)
 }
 
+#[cfg(kani)]
+#[path = "/verif/harness/rip-workspace/patch.rs"]
+mod verif_kani;
+
 #[cfg(test)]
 mod tests {
     use super::*;
